@@ -283,7 +283,34 @@ impl<'tcx> Cx<'tcx> {
                     ty::FnDef(d, a) => items.push(("fn", self.callee(caller, *d, a))),
                     _ => {
                         items.push(("ty", esc(&self.ty_s(ty))));
-                        let v = with_no_trimmed_paths!(format!("{}", c.const_));
+                        let mut v = with_no_trimmed_paths!(format!("{}", c.const_));
+                        // promoted / associated constants: show the evaluated value when it does not depend on generics
+                        if let mir::Const::Unevaluated(..) = c.const_ {
+                            let tcx = self.tcx;
+                            let env = TypingEnv::post_analysis(tcx, caller);
+                            let r = std::panic::catch_unwind(std::panic::AssertUnwindSafe(|| {
+                                c.const_.eval(tcx, env, c.span).ok().map(|val| {
+                                    let mut s = with_no_trimmed_paths!(format!("{}", mir::Const::Val(val, ty)));
+                                    // a reference to a promoted allocation: append its bytes
+                                    if let mir::ConstValue::Scalar(mir::interpret::Scalar::Ptr(p, _)) = val {
+                                        let (prov, off) = p.prov_and_relative_offset();
+                                        if let Some(mir::interpret::GlobalAlloc::Memory(a)) = tcx.try_get_global_alloc(prov.alloc_id()) {
+                                            let a = a.inner();
+                                            let n = a.len();
+                                            if n <= 64 {
+                                                let bytes = a.inspect_with_uninit_and_ptr_outside_interpreter(0..n);
+                                                let hex: Vec<String> = bytes.iter().map(|b| format!("{:02x}", b)).collect();
+                                                s = format!("promoted&[{}]+{}:{}", hex.join(""), off.bytes(), self.ty_s(ty));
+                                            }
+                                        }
+                                    }
+                                    s
+                                })
+                            }));
+                            if let Ok(Some(s)) = r {
+                                v = s;
+                            }
+                        }
                         items.push(("val", esc(&v)));
                     }
                 }
